@@ -140,6 +140,8 @@ def assumption_scan(unit_text):
                     if m:
                         nxt = m.group(0).strip()[:140]
                         break
+                if "// STUB" in ln:
+                    kind = "stub (edited function the weaver could not keep under its annotations; obligation undecided)"
                 hits.append({"kind": kind, "line": n, "item": nxt})
     return hits
 
@@ -342,12 +344,31 @@ def main():
                         missing.remove(ob)
                     if ob in obligations and ob not in failed_undecided:
                         failed_undecided.append(ob)
+            # Modularity: the body of a function can only affect that function's own obligation (callers see its contract,
+            # which the weaver never changes).  A failing obligation whose source item is token-identical to the annotated
+            # baseline is therefore not evidence about the code: solver instability or a verifier context effect => UNDECIDED.
+            # (A changed struct/enum legitimately affects its users, so the rule is off when a type definition changed.)
+            def ob_name(it_):
+                rel_, rest = it_["item"].split("::", 1)
+                parts = rest.rsplit("::", 1)
+                key_, fn_ = (parts[0], parts[1]) if len(parts) == 2 else ("", parts[0])
+                typ_ = re.sub(r"<.*$", "", key_.split(" for ")[-1]).strip()
+                stem_ = os.path.splitext(os.path.basename(rel_))[0]
+                return "::".join(x for x in (stem_, typ_, fn_) if x)
+            type_changed = any(it_.get("kind") in ("struct", "enum") and not it_.get("identical_to_annotated_baseline", True) for it_ in weave_report.get("items", []))
+            changed_obs = set(it_.get("obligation") or ob_name(it_) for it_ in weave_report.get("items", []) if it_.get("kind") == "fn" and not it_.get("identical_to_annotated_baseline", True))
+            if not type_changed:
+                for fr in list(failed_real):
+                    if fr["obligation"] not in changed_obs:
+                        failed_real.remove(fr)
+                        failed_undecided.append(fr["obligation"])
+                        notes.append("obligation %s failed although its source item is unchanged (not attributable to the code): %s" % (fr["obligation"], (fr["messages"][0][:200] if fr["messages"] else "")))
             if missing:
                 undecided.append("obligations not reported by Verus (item renamed or removed?): " + ", ".join(missing))
             lost_obs = [it_.get("obligation") for it_ in weave_report.get("items", []) if it_.get("anchor_lost")]
             for ob in failed_undecided:
                 if ob not in lost_obs:
-                    undecided.append("resource limit on obligation " + ob)
+                    undecided.append("obligation not decided (resource limit, seed dependence, or failure of an unchanged function): " + ob)
         # ---- 3. vacuity -------------------------------------------------------------------
         if prop.get("vacuity") and not verus["compile_error"]:
             vfiles = prop["vacuity"] if isinstance(prop["vacuity"], list) else [prop["vacuity"]]
